@@ -296,6 +296,10 @@ Section Sorting.
   Qed.
 End Sorting.
 
+Print Assumptions sort_keys_sorted.
+Print Assumptions sort_keys_strict.
+Print Assumptions sort_keys_perm_invariant.
+
 (* instances for the configured orders; the statements of the task *)
 Theorem sort_keys_sorted_mode {X} mode (l : list (bytes * X)) :
   StronglySorted (fun a b => key_ltb mode (fst b) (fst a) = false) (sort_keys (key_ltb mode) l).
@@ -1182,3 +1186,416 @@ Proof.
   rewrite <- (vsize_vperm 100 v v' H). apply marshal_perm_invariant; assumption.
 Qed.
 Print Assumptions marshal_top_perm_invariant.
+
+(* ====================================================================== *)
+(* 4. Emitted key order                                                     *)
+(* ====================================================================== *)
+
+(* [parse_node] inverts [flatten] *)
+Lemma parse_node_S f v tg rest : parse_node (S f) (Tok v tg :: rest) =
+  match v with
+  | ArrOpen d => match parse_items f rest with
+                 | Some (items, rest') => Some (Node tg (VArr d items), rest') | None => None end
+  | MapOpen d => match parse_entries f rest with
+                 | Some (es, rest') => Some (Node tg (VMap d es), rest') | None => None end
+  | ArrClose | MapClose => None
+  | _ => match leaf_of v with Some l => Some (Node tg l, rest) | None => None end
+  end.
+Proof. reflexivity. Qed.
+
+Definition not_close (v : tokv) : Prop := v <> ArrClose /\ v <> MapClose.
+
+Lemma parse_items_S f v tg rest : not_close v ->
+  parse_items (S f) (Tok v tg :: rest) =
+  match parse_node f (Tok v tg :: rest) with
+  | Some (x, r) => match parse_items f r with Some (xs, r') => Some (x :: xs, r') | None => None end
+  | None => None
+  end.
+Proof. intros [H1 H2]. destruct v; try reflexivity; contradiction. Qed.
+
+Lemma parse_entries_S f v tg rest : not_close v ->
+  parse_entries (S f) (Tok v tg :: rest) =
+  match parse_node f (Tok v tg :: rest) with
+  | Some (k, r) =>
+      match parse_node f r with
+      | Some (w, r2) => match parse_entries f r2 with Some (es, r') => Some ((k, w) :: es, r') | None => None end
+      | None => None
+      end
+  | None => None
+  end.
+Proof. intros [H1 H2]. destruct v; try reflexivity; contradiction. Qed.
+
+Lemma flatten_head n : exists v tg more, flatten n = Tok v tg :: more /\ not_close v.
+Proof.
+  destruct n as [tg v]. destruct v; cbn [flatten]; eexists _, _, _; (split; [reflexivity|]);
+    split; discriminate.
+Qed.
+
+Definition parses (n : tnode) : Prop :=
+  forall f rest, (length (flatten n) <= f)%nat -> parse_node f (flatten n ++ rest) = Some (n, rest).
+
+Lemma parse_items_flatten items : Forall parses items ->
+  forall f rest, (length (flat_map flatten items) + 1 <= f)%nat ->
+    parse_items f (flat_map flatten items ++ Tok ArrClose None :: rest) = Some (items, rest).
+Proof.
+  induction 1 as [|x xs Hx Hxs IH]; intros f rest Hf.
+  - destruct f as [|f]; [cbn in Hf; lia|]. reflexivity.
+  - cbn [flat_map] in *. rewrite app_length in Hf. destruct f as [|f]; [lia|].
+    rewrite <- app_assoc.
+    destruct (flatten_head x) as (v & tg & more & E & Hnc).
+    assert (Hl : (1 <= length (flatten x))%nat) by (rewrite E; cbn; lia).
+    pose proof (Hx f (flat_map flatten xs ++ Tok ArrClose None :: rest) ltac:(lia)) as Px.
+    rewrite E in Px |- *. cbn [app] in Px |- *.
+    rewrite (parse_items_S f v tg _ Hnc), Px, IH by lia. reflexivity.
+Qed.
+
+Lemma parse_entries_flatten es : Forall (fun kv => parses (fst kv) /\ parses (snd kv)) es ->
+  forall f rest, (length (flat_map flat_entry es) + 1 <= f)%nat ->
+    parse_entries f (flat_map flat_entry es ++ Tok MapClose None :: rest) = Some (es, rest).
+Proof.
+  induction 1 as [|[k w] xs [Hk Hw] Hxs IH]; intros f rest Hf.
+  - destruct f as [|f]; [cbn in Hf; lia|]. reflexivity.
+  - cbn [flat_map fst snd] in *. unfold flat_entry at 1 in Hf. unfold flat_entry at 1.
+    cbn [fst snd] in *. rewrite !app_length in Hf. destruct f as [|f]; [lia|].
+    rewrite <- !app_assoc.
+    destruct (flatten_head k) as (v & tg & more & E & Hnc).
+    destruct (flatten_head w) as (v2 & tg2 & more2 & E2 & _).
+    assert (Hl : (1 <= length (flatten k))%nat) by (rewrite E; cbn; lia).
+    assert (Hl2 : (1 <= length (flatten w))%nat) by (rewrite E2; cbn; lia).
+    pose proof (Hk f (flatten w ++ flat_map flat_entry xs ++ Tok MapClose None :: rest) ltac:(lia)) as Pk.
+    pose proof (Hw f (flat_map flat_entry xs ++ Tok MapClose None :: rest) ltac:(lia)) as Pw.
+    rewrite E in Pk |- *. cbn [app] in Pk |- *.
+    rewrite (parse_entries_S f v tg _ Hnc), Pk, Pw, IH by lia. reflexivity.
+Qed.
+
+Lemma parse_flatten n : parses n.
+Proof.
+  induction n as [tg v Hv|tg d items IH|tg d es IH] using tnode_ind'; intros f rest Hf.
+  - destruct f as [|f]; [destruct v; cbn in Hf; lia|].
+    destruct v; try contradiction; reflexivity.
+  - rewrite flatten_arr in *. cbn [length] in Hf. rewrite app_length in Hf. cbn [length] in Hf.
+    destruct f as [|f]; [lia|]. cbn [app]. rewrite <- app_assoc. cbn [app].
+    rewrite parse_node_S, parse_items_flatten by (assumption || lia). reflexivity.
+  - rewrite flatten_map in *. cbn [length] in Hf. rewrite app_length in Hf. cbn [length] in Hf.
+    destruct f as [|f]; [lia|]. cbn [app]. rewrite <- app_assoc. cbn [app].
+    rewrite parse_node_S, parse_entries_flatten by (assumption || lia). reflexivity.
+Qed.
+
+Theorem unflatten_flatten n : unflatten (flatten n) = Some n.
+Proof.
+  unfold unflatten.
+  pose proof (parse_flatten n (S (length (flatten n))) [] ltac:(lia)) as H.
+  rewrite app_nil_r in H. rewrite H. reflexivity.
+Qed.
+Print Assumptions unflatten_flatten.
+
+(* the top-level keys of an emitted map, read back through the token grammar *)
+Definition node_keys (n : tnode) : list bytes :=
+  match n with
+  | Node _ (VMap _ es) =>
+      flat_map (fun kv => match fst kv with Node _ (VStr s) => [s] | _ => [] end) es
+  | _ => []
+  end.
+Definition top_keys (ts : list token) : list bytes :=
+  match unflatten ts with Some n => node_keys n | None => [] end.
+
+Definition key_node (k : bytes) : tnode := Node None (VStr k).
+
+Lemma node_keys_key_nodes tg d (tes : list (tnode * tnode)) ks :
+  map fst tes = map key_node ks -> node_keys (Node tg (VMap d tes)) = ks.
+Proof.
+  cbn [node_keys]. revert ks. induction tes as [|[k w] r IH]; intros [|k0 ks] E; try discriminate; [reflexivity|].
+  cbn [map fst] in E. inversion E as [[E1 E2]]. cbn [flat_map fst]. unfold key_node. cbn [app].
+  f_equal. apply IH. exact E2.
+Qed.
+
+Lemma top_keys_map d tg (tes : list (tnode * tnode)) ks :
+  map fst tes = map key_node ks ->
+  top_keys (Tok (MapOpen d) tg :: flat_map flat_entry tes ++ [Tok MapClose None]) = ks.
+Proof.
+  intros E. rewrite <- flatten_map. unfold top_keys. rewrite unflatten_flatten.
+  apply node_keys_key_nodes. exact E.
+Qed.
+
+(* what [marshal_entries] / [marshal_fields] emit, keeping track of the keys *)
+Lemma marshal_entries_keys A vt es : forall f ts,
+  marshal_entries A f vt es = MOk ts ->
+  exists tes, ts = flat_map flat_entry tes ++ [Tok MapClose None] /\
+              map fst tes = map key_node (map fst es).
+Proof.
+  induction es as [|[k x] r IH]; intros [|f] ts H; try discriminate; rewrite marshal_entries_S in H.
+  - inversion H; subst. exists []. split; reflexivity.
+  - apply mprepend_ok in H. destruct H as (ts0 & H & ->).
+    apply mseq_ok in H. destruct H as (ts1 & H1 & H).
+    apply mprepend_ok in H. destruct H as (ts2 & H2 & ->).
+    destruct (marshal_wf _ _ _ _ _ H1) as (n & -> & _).
+    destruct (IH _ _ H2) as (tes & -> & E).
+    exists ((key_node k, n) :: tes). split.
+    + cbn [flat_map]. unfold flat_entry at 2. cbn [fst snd key_node flatten app].
+      rewrite <- !app_assoc. reflexivity.
+    + cbn [map fst]. rewrite E. reflexivity.
+Qed.
+
+Lemma marshal_fields_keys A v l : forall f ts,
+  marshal_fields A f l v = MOk ts ->
+  exists tes, ts = flat_map flat_entry tes ++ [Tok MapClose None] /\
+              map fst tes = map key_node (map fe_name (filter (has_route v) l)).
+Proof.
+  induction l as [|fe r IH]; intros [|f] ts H; try discriminate; rewrite marshal_fields_S in H.
+  - inversion H; subst. exists []. split; reflexivity.
+  - cbn [filter]. unfold has_route at 1.
+    destruct (traverse (fe_route fe) v) as [fv|]; [|apply (IH _ _ H)].
+    apply mprepend_ok in H. destruct H as (ts0 & H & ->).
+    apply mseq_ok in H. destruct H as (ts1 & H1 & H).
+    apply mprepend_ok in H. destruct H as (ts2 & H2 & ->).
+    destruct (marshal_wf _ _ _ _ _ H1) as (n & -> & _).
+    destruct (IH _ _ H2) as (tes & -> & E).
+    exists ((key_node (fe_name fe), n) :: tes). split.
+    + cbn [flat_map]. unfold flat_entry at 2. cbn [fst snd key_node flatten app].
+      rewrite <- !app_assoc. reflexivity.
+    + cbn [map fst]. rewrite E. reflexivity.
+Qed.
+
+Lemma StronglySorted_map_fst {T} (R : bytes -> bytes -> Prop) (l : list (bytes * T)) :
+  StronglySorted (fun a b => R (fst a) (fst b)) l -> StronglySorted R (map fst l).
+Proof.
+  induction 1 as [|a l Hs IH Ha]; cbn [map]; constructor; [exact IH|].
+  apply Forall_forall. intros k Hk. apply in_map_iff in Hk. destruct Hk as (b & <- & Hb).
+  rewrite Forall_forall in Ha. apply Ha. exact Hb.
+Qed.
+
+(* C08, emitted order of map keys: the top-level keys of the tokens of a map
+   are exactly the stringified keys, sorted by the order of [mode]. *)
+Theorem map_keys_emitted_in_order : forall A f mode kt vt es ts,
+  marshal_map A f mode kt vt (Some es) = MOk ts ->
+  exists str,
+    map_stringer A kt = Some str /\
+    existsb nonep (map_keyed str es) = false /\          (* every key was stringified *)
+    top_keys ts = map fst (sort_keys (key_ltb mode) (stringified str es)) /\
+    Permutation (top_keys ts) (map fst (stringified str es)) /\
+    StronglySorted (fun a b => key_ltb mode b a = false) (top_keys ts) /\
+    (NoDup (map fst (stringified str es)) ->
+     StronglySorted (fun a b => key_ltb mode a b = true) (top_keys ts)).
+Proof.
+  intros A [|f] mode kt vt es ts H; [discriminate|]. rewrite marshal_map_S in H.
+  destruct (map_stringer A kt) as [str|]; [|discriminate]. cbv zeta in H.
+  fold nonep in H. destruct (existsb nonep (map_keyed str es)) eqn:Ex; [discriminate|].
+  apply mprepend_ok in H. destruct H as (ts' & H & ->).
+  apply marshal_entries_keys in H. destruct H as (tes & -> & E).
+  exists str. split; [reflexivity|]. split; [exact Ex|].
+  assert (Et : top_keys ([Tok (MapOpen (Z.of_nat (length es))) None] ++
+                         flat_map flat_entry tes ++ [Tok MapClose None]) =
+               map fst (sort_keys (key_ltb mode) (stringified str es))).
+  { cbn [app]. apply top_keys_map. exact E. }
+  rewrite Et. split; [reflexivity|]. split; [|split].
+  - apply Permutation_map. apply sort_keys_perm.
+  - apply StronglySorted_map_fst with (R := fun a b => key_ltb mode b a = false).
+    apply sort_keys_sorted_mode.
+  - intros Hnd. apply StronglySorted_map_fst with (R := fun a b => key_ltb mode a b = true).
+    apply sort_keys_strict_mode. exact Hnd.
+Qed.
+Print Assumptions map_keys_emitted_in_order.
+
+(* which [mode] applies: the atlas default for a map type without its own
+   entry, the entry's mode for a map-morphism entry *)
+Theorem map_mode_default A f kt vt o :
+  marshal_kind A (S f) (GMap kt vt) (GVMap o) = marshal_map A f (a_mode A) kt vt o.
+Proof. reflexivity. Qed.
+
+Theorem map_mode_morphism A f t tg mode kt vt o :
+  strip_named t = GMap kt vt ->
+  marshal_entry A (S f) (AE t tg (EMapMorphism mode)) (GVMap o) = marshal_map A f mode kt vt o.
+Proof. intros E. rewrite marshal_entry_S. cbn [ae_kind ae_type]. rewrite E. reflexivity. Qed.
+
+Corollary map_value_keys_default_mode : forall A f kt vt es ts,
+  atlas_get A (GMap kt vt) = None ->
+  marshal A f (GMap kt vt) (GVMap (Some es)) = MOk ts ->
+  exists str, map_stringer A kt = Some str /\
+    top_keys ts = map fst (sort_keys (key_ltb (a_mode A)) (stringified str es)).
+Proof.
+  intros A f kt vt es ts Hg H.
+  destruct f as [|f]; [discriminate|].
+  rewrite marshal_S in H. cbn [peel deref] in H.
+  destruct f as [|f]; [discriminate|].
+  rewrite marshal_bare_S in H. cbn [is_unnamed_prim] in H. rewrite Hg in H.
+  cbn [strip_named] in H.
+  destruct f as [|f]; [discriminate|]. rewrite map_mode_default in H.
+  destruct (map_keys_emitted_in_order _ _ _ _ _ _ _ H) as (str & Hs & _ & Ek & _).
+  exists str. split; assumption.
+Qed.
+Print Assumptions map_value_keys_default_mode.
+
+Corollary map_value_keys_morphism_mode : forall A f t tg mode kt vt es ts,
+  strip_named t = GMap kt vt ->
+  marshal_entry A f (AE t tg (EMapMorphism mode)) (GVMap (Some es)) = MOk ts ->
+  exists str, map_stringer A kt = Some str /\
+    top_keys ts = map fst (sort_keys (key_ltb mode) (stringified str es)).
+Proof.
+  intros A f t tg mode kt vt es ts Hs H. destruct f as [|f]; [discriminate|].
+  rewrite (map_mode_morphism _ _ _ _ _ _ _ _ Hs) in H.
+  destruct (map_keys_emitted_in_order _ _ _ _ _ _ _ H) as (str & Hst & _ & Ek & _).
+  exists str. split; assumption.
+Qed.
+Print Assumptions map_value_keys_morphism_mode.
+
+(* ====================================================================== *)
+(* 5. Struct fields in atlas order                                          *)
+(* ====================================================================== *)
+
+Inductive sublist {T} : list T -> list T -> Prop :=
+| sl_nil : sublist [] []
+| sl_skip x l l' : sublist l l' -> sublist l (x :: l')
+| sl_keep x l l' : sublist l l' -> sublist (x :: l) (x :: l').
+
+Lemma filter_sublist {T} (p : T -> bool) l : sublist (filter p l) l.
+Proof.
+  induction l as [|x r IH]; cbn [filter]; [constructor|].
+  destruct (p x); [apply sl_keep | apply sl_skip]; exact IH.
+Qed.
+
+Lemma map_sublist {T U} (g : T -> U) l l' : sublist l l' -> sublist (map g l) (map g l').
+Proof. induction 1; cbn [map]; constructor; assumption. Qed.
+
+(* C08, struct fields: the keys of an emitted struct are the serial names of
+   the live fields (not ignored, route resolves, not omitted-as-empty), in the
+   order of the atlas entry. *)
+Theorem struct_keys_in_atlas_order : forall A f t tg fields v ts,
+  marshal_entry A f (AE t tg (EStruct fields)) v = MOk ts ->
+  top_keys ts = map fe_name (live_fields fields v) /\
+  live_fields fields v = filter (has_route v) (live_fields fields v) /\
+  sublist (top_keys ts) (map fe_name fields).
+Proof.
+  intros A [|f] t tg fields v ts H; [discriminate|].
+  rewrite marshal_entry_S in H. cbn [ae_kind ae_tag] in H. cbv zeta in H.
+  apply mprepend_ok in H. destruct H as (ts' & H & ->).
+  apply marshal_fields_keys in H. destruct H as (tes & -> & E).
+  rewrite live_has_route in E.
+  assert (Et : top_keys ([Tok (MapOpen (Z.of_nat (length (live_fields fields v)))) tg] ++
+                         flat_map flat_entry tes ++ [Tok MapClose None]) =
+               map fe_name (live_fields fields v)).
+  { cbn [app]. apply top_keys_map. exact E. }
+  rewrite Et. split; [reflexivity|]. split; [symmetry; apply live_has_route|].
+  apply map_sublist. unfold live_fields. apply filter_sublist.
+Qed.
+Print Assumptions struct_keys_in_atlas_order.
+
+(* ====================================================================== *)
+(* Examples (non-vacuity)                                                   *)
+(* ====================================================================== *)
+
+(* "a" < "ab" < "b" < "é" bytewise; RFC 7049 puts the shorter "b" before "ab" *)
+Example cmp_prefix : bytes_ltb [97] [97;98] = true /\ bytes_ltb [97;98] [97] = false.
+Proof. vm_compute. split; reflexivity. Qed.
+Example cmp_modes :
+  key_ltb 0 [97;98] [98] = true /\ key_ltb 2 [97;98] [98] = false /\ key_ltb 2 [98] [97;98] = true /\
+  key_ltb 0 [98] [195;169] = true /\ key_ltb 2 [97;98] [195;169] = true.
+Proof. vm_compute. repeat split; reflexivity. Qed.
+
+(* a 4-key map, keys "ab", "a", "é" (two bytes), "b", in two iteration orders *)
+Definition ex_es : list (gval * gval) :=
+  [(GVStr [97;98], VNum 1); (GVStr [97], VNum 2); (GVStr [195;169], VNum 3); (GVStr [98], VNum 4)].
+Definition ex_m1 : gval := GVMap (Some ex_es).
+Definition ex_m2 : gval := GVMap (Some (rev ex_es)).
+Definition ex_ty : gtype := GMap GStr (GNum IInt).
+
+Lemma ex_vperm : vperm ex_m1 ex_m2.
+Proof.
+  eapply vp_map; [apply Forall2_refl; apply kv_vperm_refl | apply Permutation_rev].
+Qed.
+
+Example ex_mode0 :
+  marshal_top [] (Atlas [] 0) ex_ty ex_m1 =
+    MOk [Tok (MapOpen 4) None; Tok (Str [97]) None; Tok (Int 2) None; Tok (Str [97;98]) None; Tok (Int 1) None;
+         Tok (Str [98]) None; Tok (Int 4) None; Tok (Str [195;169]) None; Tok (Int 3) None; Tok MapClose None] /\
+  marshal_top [] (Atlas [] 0) ex_ty ex_m2 = marshal_top [] (Atlas [] 0) ex_ty ex_m1.
+Proof. vm_compute. split; reflexivity. Qed.
+
+Example ex_mode2 :
+  marshal_top [] (Atlas [] 2) ex_ty ex_m1 =
+    MOk [Tok (MapOpen 4) None; Tok (Str [97]) None; Tok (Int 2) None; Tok (Str [98]) None; Tok (Int 4) None;
+         Tok (Str [97;98]) None; Tok (Int 1) None; Tok (Str [195;169]) None; Tok (Int 3) None; Tok MapClose None] /\
+  marshal_top [] (Atlas [] 2) ex_ty ex_m2 = marshal_top [] (Atlas [] 2) ex_ty ex_m1.
+Proof. vm_compute. split; reflexivity. Qed.
+
+(* the hypothesis of the theorem holds for these inputs, and the theorem gives the equality *)
+Example ex_keys_distinct :
+  keys_distinct (Atlas [] 0) 50 ex_ty ex_m1 = true /\ keys_distinct (Atlas [] 2) 50 ex_ty ex_m1 = true.
+Proof. vm_compute. split; reflexivity. Qed.
+
+Example ex_by_theorem mode : (mode = 0 \/ mode = 2) ->
+  marshal (Atlas [] mode) 50 ex_ty ex_m1 = marshal (Atlas [] mode) 50 ex_ty ex_m2.
+Proof.
+  intros [->| ->]; apply marshal_perm_invariant; try apply ex_vperm; vm_compute; reflexivity.
+Qed.
+
+Example ex_top_keys :
+  (forall ts, marshal_top [] (Atlas [] 0) ex_ty ex_m2 = MOk ts ->
+              top_keys ts = [[97]; [97;98]; [98]; [195;169]]) /\
+  (forall ts, marshal_top [] (Atlas [] 2) ex_ty ex_m2 = MOk ts ->
+              top_keys ts = [[97]; [98]; [97;98]; [195;169]]).
+Proof. split; intros ts H; vm_compute in H; inversion H; subst; vm_compute; reflexivity. Qed.
+
+(* permutation at depth: maps inside slices inside a map *)
+Definition ex_in1 : gval := GVMap (Some [(GVStr [120], VNum 1); (GVStr [121], VNum 2)]).
+Definition ex_in2 : gval := GVMap (Some [(GVStr [121], VNum 2); (GVStr [120], VNum 1)]).
+Definition ex_d1 : gval :=
+  GVMap (Some [(GVStr [107], VSlice (Some [ex_in1; ex_in1])); (GVStr [106], VSlice (Some [ex_in2]))]).
+Definition ex_d2 : gval :=
+  GVMap (Some [(GVStr [106], VSlice (Some [ex_in1])); (GVStr [107], VSlice (Some [ex_in2; ex_in1]))]).
+Definition ex_dty : gtype := GMap GStr (GSlice (GMap GStr (GNum IInt))).
+
+Lemma ex_in12 : vperm ex_in1 ex_in2.
+Proof. eapply vp_map; [apply Forall2_refl; apply kv_vperm_refl | apply perm_swap]. Qed.
+
+Lemma ex_deep_vperm : vperm ex_d1 ex_d2.
+Proof.
+  eapply vp_map with
+    (es1 := [(GVStr [107], VSlice (Some [ex_in2; ex_in1])); (GVStr [106], VSlice (Some [ex_in1]))]);
+    [|apply perm_swap].
+  constructor; [|constructor; [|constructor]].
+  - split; [reflexivity|]. apply vp_slice.
+    constructor; [apply ex_in12 | constructor; [apply vp_refl | constructor]].
+  - split; [reflexivity|]. apply vp_slice.
+    constructor; [apply vperm_sym; apply ex_in12 | constructor].
+Qed.
+
+Example ex_deep :
+  keys_distinct (Atlas [] 0) 60 ex_dty ex_d1 = true /\
+  marshal (Atlas [] 0) 60 ex_dty ex_d1 = marshal (Atlas [] 0) 60 ex_dty ex_d2 /\
+  marshal (Atlas [] 0) 60 ex_dty ex_d1 <> MFuel.
+Proof.
+  split; [vm_compute; reflexivity|]. split.
+  - apply marshal_perm_invariant; [apply ex_deep_vperm | vm_compute; reflexivity].
+  - vm_compute. discriminate.
+Qed.
+
+(* struct keys through an injective use of transform kind 6, map-morphism entry with its own mode *)
+Definition ex_sA : atlas :=
+  Atlas [AE (GStruct 1) None (ETransform 6 GStr);
+         AE (GMap (GStruct 1) (GNum IInt)) None (EMapMorphism 2)] 0.
+Definition ex_s1 : gval :=
+  GVMap (Some [(VStruct [GVStr [97;97]; GVStr [98]], VNum 1); (VStruct [GVStr [99]; GVStr []], VNum 2)]).
+Definition ex_s2 : gval :=
+  GVMap (Some [(VStruct [GVStr [99]; GVStr []], VNum 2); (VStruct [GVStr [97;97]; GVStr [98]], VNum 1)]).
+
+Example ex_struct_keys :
+  keys_distinct ex_sA 30 (GMap (GStruct 1) (GNum IInt)) ex_s1 = true /\
+  marshal ex_sA 30 (GMap (GStruct 1) (GNum IInt)) ex_s1 =
+    MOk [Tok (MapOpen 2) None; Tok (Str [99;58]) None; Tok (Int 2) None;
+         Tok (Str [97;97;58;98]) None; Tok (Int 1) None; Tok MapClose None] /\
+  marshal ex_sA 30 (GMap (GStruct 1) (GNum IInt)) ex_s2 = marshal ex_sA 30 (GMap (GStruct 1) (GNum IInt)) ex_s1.
+Proof. vm_compute. repeat split; reflexivity. Qed.
+
+(* struct fields: atlas order, ignored / omitted-empty / nil-embedded fields dropped *)
+Definition ex_fields : list field_entry :=
+  [FE [122] [1%nat] GStr false false;            (* "z" : field 1 *)
+   FE [97] [0%nat] (GNum IInt) true false;       (* "a" : field 0, omitempty *)
+   FE [109] [2%nat; 0%nat] GStr false false;         (* "m" : through embedded pointer field 2 *)
+   FE [105] [1%nat] GStr false true;             (* "i" : ignored *)
+   FE [98] [3%nat] GBool false false].           (* "b" : field 3 *)
+Definition ex_stA : atlas := Atlas [AE (GStruct 7) None (EStruct ex_fields)] 0.
+Definition ex_st : gval := VStruct [VNum 0; GVStr [104]; VPtr None; GVBool true].
+
+Example ex_struct_order :
+  forall ts, marshal ex_stA 30 (GStruct 7) ex_st = MOk ts -> top_keys ts = [[122]; [98]].
+Proof. intros ts H. vm_compute in H. inversion H; subst. vm_compute. reflexivity. Qed.
